@@ -4,10 +4,11 @@
 # VERIF_REPO=<dir> (testing the machinery only) builds against another checkout of storj/drpc instead.
 set -u
 ID=$1; TIER=${2:-quick}
-cd /verif/harness || exit 2
+ROOT=${VERIF_ROOT:-/verif}   # VERIF_ROOT: run from another checkout of /verif (development only)
+cd $ROOT/harness || exit 2
 export GOFLAGS=-mod=mod GOPROXY=off GOSUMDB=off GOTOOLCHAIN=local GOMAXPROCS=${GOMAXPROCS:-16}
-mkdir -p /verif/bin /verif/out /verif/evidence
-BIN=/verif/bin/verif-$ID
+mkdir -p $ROOT/bin $ROOT/out $ROOT/evidence
+BIN=$ROOT/bin/verif-$ID
 MODFLAG=
 if [ -n "${VERIF_REPO:-}" ] && [ "$VERIF_REPO" != /repo ]; then
   T=$(mktemp -d /tmp/verif-mod-XXXXXX)
@@ -17,9 +18,9 @@ if [ -n "${VERIF_REPO:-}" ] && [ "$VERIF_REPO" != /repo ]; then
   export VERIF_REPO VERIF_EVIDENCE_DIR="${VERIF_EVIDENCE_DIR:-$T/evidence}" VERIF_OUT_DIR="${VERIF_OUT_DIR:-/tmp/verif-mutant-out}"
   trap 'rm -rf "$T"' EXIT
 fi
-if ! go1.26 build $MODFLAG -tags verif -o "$BIN" ./cmd/verif 2>/verif/out/build-$ID.log; then
+if ! go1.26 build $MODFLAG -tags verif -o "$BIN" ./cmd/verif 2>$ROOT/out/build-$ID.log; then
   # the tree under /repo does not build with the hooks on: nothing can be decided
-  cat /verif/out/build-$ID.log >&2
+  cat $ROOT/out/build-$ID.log >&2
   echo "INCONCLUSIVE property=$ID harness does not build against the repository" >&2
   exit 2
 fi
